@@ -53,6 +53,51 @@ type schedVector struct {
 }
 
 func checkC16(spec *PropSpec, repo, tier string, seed int, workers int) int {
+	// scenario 1: R plain commands; scenario 2 (R = -1): a connection that
+	// enters the discard-until-Sync state before its simple query
+	R := 1
+	if tier == "thorough" {
+		R = 2
+	}
+	rc1 := checkC16Scenario(spec, repo, tier, seed, workers, R, "")
+	if rc1 != 0 {
+		return rc1
+	}
+	first, _ := os.ReadFile(filepath.Join(verifDir, "evidence", "C16.json"))
+	rc2 := checkC16Scenario(spec, repo, tier, seed, workers, -1, "-discarding")
+	// merge the two evidence files (the second run rewrote the file)
+	var a, b map[string]interface{}
+	if json.Unmarshal(first, &a) == nil {
+		second, _ := os.ReadFile(filepath.Join(verifDir, "evidence", "C16.json"))
+		if json.Unmarshal(second, &b) == nil {
+			ca, _ := a["coverage"].(map[string]interface{})
+			cb, _ := b["coverage"].(map[string]interface{})
+			if ca != nil && cb != nil {
+				for _, k := range []string{"states", "transitions", "traces_validated_against_impl", "obligations", "discharged"} {
+					x, _ := ca[k].(float64)
+					y, _ := cb[k].(float64)
+					cb[k] = int(x + y)
+				}
+				sa, _ := ca["samples"].([]interface{})
+				sb, _ := cb["samples"].([]interface{})
+				cb["samples"] = append(sa, sb...)
+				cb["scenario_plain_commands"] = ca["bmc"]
+				ia, _ := ca["inconclusive"].([]interface{})
+				ib, _ := cb["inconclusive"].([]interface{})
+				cb["inconclusive"] = append(ia, ib...)
+				cb["exhaustive"] = len(ia)+len(ib) == 0
+				wa, _ := a["wall_s"].(float64)
+				wb, _ := b["wall_s"].(float64)
+				b["wall_s"] = wa + wb
+				data, _ := json.MarshalIndent(b, "", " ")
+				os.WriteFile(filepath.Join(verifDir, "evidence", "C16.json"), data, 0o644)
+			}
+		}
+	}
+	return rc2
+}
+
+func checkC16Scenario(spec *PropSpec, repo, tier string, seed int, workers int, R int, suffix string) int {
 	id := "C16"
 	t0 := time.Now()
 	evPath := filepath.Join(verifDir, "evidence", id+".json")
@@ -61,10 +106,6 @@ func checkC16(spec *PropSpec, repo, tier string, seed int, workers int) int {
 	var inconclusive, violations []string
 	var samples []interface{}
 	funcs := map[string]bool{}
-	R := 1
-	if tier == "thorough" {
-		R = 2
-	}
 	m, err := loadMachine(repo)
 	if err != nil {
 		reason := "harness does not type-check / tree does not load: " + clipS(err.Error(), 600)
@@ -190,7 +231,7 @@ func checkC16(spec *PropSpec, repo, tier string, seed int, workers int) int {
 			}
 			vec.Schedule = append(vec.Schedule, map[string]string{"thread": th, "op": op, "obj": obj})
 		}
-		path := filepath.Join(verifDir, "evidence", "replay", fmt.Sprintf("%s-schedule-%s.json", id, q.Name))
+		path := filepath.Join(verifDir, "evidence", "replay", fmt.Sprintf("%s-schedule%s-%s.json", id, suffix, q.Name))
 		data, _ := json.MarshalIndent(vec, "", " ")
 		os.WriteFile(path, data, 0o644)
 		bin, err := n.bin("wire")
@@ -220,6 +261,9 @@ func checkC16(spec *PropSpec, repo, tier string, seed int, workers int) int {
 				continue
 			}
 			ro, _ := replay(q)
+			if os.Getenv("GOSYM_DEBUG16") != "" {
+				fmt.Println("WITNESS-REPLAY-OUTPUT:", ro.Output)
+			}
 			ok := ro.Status == "done" && contains(ro.Reach, "all-threads-finished") && strings.Contains(ro.Output, fmt.Sprintf("followed=%d/", countPoints(q)))
 			if ok {
 				validated++
@@ -238,6 +282,11 @@ func checkC16(spec *PropSpec, repo, tier string, seed int, workers int) int {
 			confirmed := ro.Status == "fail" || ro.Status == "panic"
 			if q.Name == "a-no-panic" {
 				confirmed = ro.Status == "panic"
+			}
+			if q.Name == "e-no-deadlock" {
+				// threads that are blocked for real: the harness reports it after its
+				// own 8 s wait, or the test binary's deadline expires
+				confirmed = ro.Status == "fail" || ro.Status == "timeout"
 			}
 			msg := fmt.Sprintf("%s schedule=[%s] native=%s %v", q.Name, fmtSched(q), ro.Status, ro.Labels)
 			if confirmed {
@@ -287,7 +336,7 @@ func checkC16(spec *PropSpec, repo, tier string, seed int, workers int) int {
 	if len(violations) > 0 {
 		return 1
 	}
-	fmt.Printf("OK %s tier=%s: %d/%d properties unsat over all schedules (K=%d), witness replayed natively=%d, %d inconclusive, %.1fs\n", id, tier, discharged, total, br.K, validated, len(inconclusive), time.Since(t0).Seconds())
+	fmt.Printf("OK %s%s tier=%s: %d/%d properties unsat over all schedules (K=%d), witness replayed natively=%d, %d inconclusive, %.1fs\n", id, suffix, tier, discharged, total, br.K, validated, len(inconclusive), time.Since(t0).Seconds())
 	return 0
 }
 
